@@ -2,7 +2,7 @@
 EXTENDS ScGen
 F(p, args) == [p |-> p, a |-> args]
 \* constants of every kind, including the characters the line format has to survive
-K == { Num(0), Num(-7), Num(65792), Str("a"), Str(""), Str("a\"b"), Str("a\\b"), Str("two\nlines"), Str("tab\there"),
+K == { Num(0), Num(-7), Num(65792), Str("a"), Str(""), Str("a\"b"), Str("a\\b"), Str("two\nlines"), Str("tab\there"), Str("ff\fhere"),
        Str("uni\\u00e9"), Str("/notaname"), Str("100%"),
        Nm("/a"), Nm("/a/b"), Nm("/a.b"), Nm("/a-b_c"), Nm("/a%41b"), Nm("/a~b"), Nm("/1"),
        <<"f", "1.5">>, <<"f", "1">>, <<"f", "-0.25">>, <<"f", "1e+21">>,
